@@ -21,7 +21,7 @@ PROP = "C17"
 
 PATHS = {"pkt": [], "eth": ["eth"], "vlan": ["eth", "vlan"], "ipv4": ["eth", "ipv4"], "ipv6": ["eth", "ipv6"],
          "tcp": ["eth", "ipv4", "tcp"], "udp": ["eth", "ipv4", "udp"], "ipv6/tcp": ["eth", "ipv6", "tcp"],
-         "vlan/ipv4": ["eth", "vlan", "ipv4"]}
+         "vlan/ipv4": ["eth", "vlan", "ipv4"], "vlan/ipv6": ["eth", "vlan", "ipv6"], "vlan/ipv6/udp": ["eth", "vlan", "ipv6", "udp"]}
 
 
 def stack_frame(rnd, names):
@@ -162,7 +162,7 @@ def sequence_histories(rnd, start):
     items = []
     inner = {"eth": ["src"], "vlan": ["priority", "id"], "ipv4": ["ttl", "id", "dst"], "ipv6": ["hoplimit", "flowlabel"],
              "tcp": ["srcport", "window", "flags"], "udp": ["dstport"]}
-    for stack in ("tcp", "udp", "ipv6/tcp", "vlan/ipv4"):
+    for stack in ("tcp", "udp", "ipv6/tcp", "vlan/ipv4", "vlan/ipv6/udp"):
         names = PATHS[stack]
         for ikind in names:
             for iprop in inner.get(ikind, []):
@@ -185,6 +185,47 @@ def sequence_histories(rnd, start):
                         items.append({"id": start + len(items), "hdr": pkt.record_header(rnd, len(raw)), "raw": raw,
                                       "hist": hist, "via_dollar": False, "check": ["read", "write", "assign"],
                                       "tag": "sequence %s.%s %s %s.%s(same value)" % (ikind, iprop, "then" if order == 0 else "after", skind, sprop)})
+    return items
+
+
+def truncated_inner_histories(rnd, start):
+    """the innermost layer is cut short by the capture: reading it yields an error object; an assignment to a field of an
+    enclosing layer made after that read must still leave every captured byte outside the field as it was"""
+    items = []
+    outer_field = {"ipv4": ("ttl", 8), "ipv6": ("hoplimit", 8), "vlan": ("id", 12), "eth": ("type", None)}
+    for stack in ("tcp", "udp", "ipv6/tcp", "vlan/ipv6/udp"):
+        names = PATHS[stack]
+        full = stack_frame(rnd, names)
+        # offset of the innermost layer
+        off = 0
+        for n in names[:-1]:
+            if n == "eth":
+                off += 14
+            elif n == "vlan":
+                off += 4
+            elif n == "ipv4":
+                off += (full[off] & 15) * 4
+            elif n == "ipv6":
+                off += 40
+        for keep in (0, 1, 5, 7):
+            raw = full[:off + keep]
+            for okind in names[:-1]:
+                prop, bits = outer_field[okind]
+                if bits is None:
+                    continue
+                ipath = [{"t": "name", "n": x} for x in names]
+                opath = [{"t": "name", "n": x} for x in names[:names.index(okind) + 1]]
+                for read_first in (True, False):
+                    hist = []
+                    if read_first:
+                        hist.append({"op": "read", "path": ipath, "prop": "payload"})
+                    hist.append({"op": "assign", "path": opath, "prop": prop, "val": pkt.jint(rnd.randrange(1 << bits))})
+                    hist += dump_steps(names[:names.index(okind) + 1], only_layer=okind)[:3]
+                    hist.append({"op": "write", "sink": "pcap_write"})
+                    items.append({"id": start + len(items), "hdr": pkt.record_header(rnd, len(raw)), "raw": raw, "hist": hist,
+                                  "via_dollar": False, "check": ["write", "assign"],
+                                  "tag": "truncated-inner %s keep=%d assign %s.%s %s" % (stack, keep, okind, prop,
+                                                                                         "after-read" if read_first else "no-read")})
     return items
 
 
@@ -228,6 +269,7 @@ def run(rep, tier, seed):
         items = assign_items(rnd, tier, 0)
         items += random_histories(rnd, 400 if tier == "quick" else 6000, len(items))
         items += sequence_histories(rnd, len(items))
+        items += truncated_inner_histories(rnd, len(items))
         recs = pkt.run_histories(items, d)
         for it, r in zip(items, recs):
             r["check"] = it["check"]
